@@ -1,6 +1,7 @@
 (* C12 - the statements pinned in Props/C12.v, in their final form (ring degree a power of two). *)
 From PV Require Import Base.MachineInt Model.C12Scratch Gen.C12TmpBytes_gen Model.C12Trees
-  Proofs.C12Arena Proofs.C12Hal Proofs.C12Core Proofs.C12KeySwitch Proofs.C12More.
+  Proofs.C12Arena Proofs.C12Hal Proofs.C12Core Proofs.C12KeySwitch Proofs.C12More Proofs.C12Conv
+  Proofs.C12Ggsw Proofs.C12Tensor Proofs.C12KeyEnc Proofs.C12Helpers Proofs.C12Compressed Proofs.C12Cmux.
 Open Scope Z_scope.
 
 Lemma pow2_nonneg (n : Z) : pow2 n -> 0 <= n.
@@ -74,6 +75,198 @@ Lemma main_glwe_mul_const (fam n : Z) (res a : infos) (b_len cnv_offset : Z) :
   (if cnv_offset <? i_base2k a then 0 else Z.max 0 (cnv_offset / i_base2k a - 1)) <= i_size a + b_len ->
   run_takes (tree_glwe_mul_const fam n res a b_len cnv_offset) (0, glwe_mul_const_tmp_bytes fam n res a b_len) <> None.
 Proof. intros Hf Hp H8. apply suffices_glwe_mul_const; auto using pow2_nonneg, pow2_ge8. Qed.
+
+Lemma main_lwe_from_glwe (fam n : Z) (lwe a key : infos) :
+  is_fam fam -> pow2 n -> 8 <= n -> wf_infos lwe -> wf_infos a -> wf_infos key -> i_n a = n -> i_rank a = i_rank_in key ->
+  run_takes (tree_lwe_from_glwe fam n lwe a key) (0, lwe_from_glwe_tmp_bytes fam n lwe a key) <> None.
+Proof. intros Hf Hp H8. apply suffices_lwe_from_glwe; auto using pow2_nonneg, pow2_ge8. Qed.
+Lemma main_lwe_keyswitch (fam n : Z) (res a key : infos) :
+  is_fam fam -> pow2 n -> 8 <= n -> wf_infos res -> wf_infos a -> wf_infos key -> i_rank_in key = 1 ->
+  run_takes (tree_lwe_keyswitch fam n res a key) (0, lwe_keyswitch_tmp_bytes fam n res a key) <> None.
+Proof. intros Hf Hp H8. apply suffices_lwe_keyswitch; auto using pow2_nonneg, pow2_ge8. Qed.
+Lemma main_glwe_from_lwe (fam n : Z) (res lwe key : infos) :
+  is_fam fam -> pow2 n -> 8 <= n -> wf_infos res -> wf_infos lwe -> wf_infos key -> i_rank_in key = 1 ->
+  run_takes (tree_glwe_from_lwe fam n res lwe key) (0, glwe_from_lwe_tmp_bytes fam n res lwe key) <> None.
+Proof. intros Hf Hp H8. apply suffices_glwe_from_lwe; auto using pow2_nonneg, pow2_ge8. Qed.
+Lemma main_glwe_pack (fam n : Z) (res key : infos) (iters steps : Z) :
+  is_fam fam -> pow2 n -> 8 <= n -> wf_infos res -> wf_infos key -> i_n res = n -> i_rank res = i_rank_in key ->
+  run_takes (tree_glwe_pack fam n res res key iters steps) (0, glwe_pack_tmp_bytes fam n res key) <> None.
+Proof. intros Hf Hp H8. apply suffices_glwe_pack; auto using pow2_nonneg, pow2_ge8. Qed.
+Lemma main_glwe_pack_inputs (fam n : Z) (res a key : infos) (iters steps : Z) :
+  is_fam fam -> pow2 n -> 8 <= n -> wf_infos res -> wf_infos a -> wf_infos key -> i_n res = n -> i_n a = n ->
+  i_rank res = i_rank_in key -> i_rank a = i_rank_in key ->
+  run_takes (tree_glwe_pack fam n res a key iters steps)
+            (0, Z.max (glwe_pack_tmp_bytes fam n res key) (glwe_pack_tmp_bytes fam n a key)) <> None.
+Proof. intros Hf Hp H8. apply suffices_glwe_pack_inputs; auto using pow2_nonneg, pow2_ge8. Qed.
+
+Lemma main_ggsw_from_gglwe (fam n : Z) (res tsk : infos) :
+  is_fam fam -> pow2 n -> 8 <= n -> wf_infos res -> wf_infos tsk -> i_rank res = i_rank_in tsk ->
+  run_takes (tree_ggsw_from_gglwe fam n res tsk) (0, ggsw_from_gglwe_tmp_bytes fam n res tsk) <> None.
+Proof. intros Hf Hp H8. apply suffices_ggsw_from_gglwe; auto using pow2_nonneg, pow2_ge8. Qed.
+
+Lemma main_ggsw_keyswitch (fam n : Z) (res a key tsk : infos) :
+  is_fam fam -> pow2 n -> 8 <= n -> wf_infos res -> wf_infos a -> wf_infos key -> wf_infos tsk -> i_n a = n -> i_rank a = i_rank_in key -> i_rank res = i_rank_in tsk ->
+  run_takes (tree_ggsw_keyswitch fam n res a key tsk) (0, ggsw_keyswitch_tmp_bytes fam n res a key tsk) <> None.
+Proof. intros Hf Hp H8. apply suffices_ggsw_keyswitch; auto using pow2_nonneg, pow2_ge8. Qed.
+
+Lemma main_ggsw_automorphism (fam n : Z) (res a key tsk : infos) :
+  is_fam fam -> pow2 n -> 8 <= n -> wf_infos res -> wf_infos a -> wf_infos key -> wf_infos tsk -> i_n a = n -> i_rank a = i_rank_in key -> i_rank res = i_rank_in tsk ->
+  run_takes (tree_ggsw_automorphism fam n res a key tsk) (0, ggsw_automorphism_tmp_bytes fam n res a key tsk) <> None.
+Proof. intros Hf Hp H8. apply suffices_ggsw_automorphism; auto using pow2_nonneg, pow2_ge8. Qed.
+
+Lemma main_glwe_tensor_relinearize (fam n : Z) (res a tsk : infos) (tsk_size : Z) :
+  is_fam fam -> pow2 n -> 8 <= n -> wf_infos res -> wf_infos a -> wf_infos tsk -> 0 <= tsk_size <= i_size tsk ->
+  run_takes (tree_glwe_tensor_relinearize fam n res a tsk tsk_size) (0, glwe_tensor_relinearize_tmp_bytes fam n res a tsk) <> None.
+Proof. intros Hf Hp H8. apply suffices_glwe_tensor_relinearize; auto using pow2_nonneg, pow2_ge8. Qed.
+
+Lemma main_glwe_tensor_square_apply (fam n : Z) (res a : infos) (cnv_offset : Z) :
+  is_fam fam -> pow2 n -> 8 <= n -> wf_infos res -> wf_infos a -> 1 <= i_size a -> 0 <= cnv_offset -> cnv_offset_hi cnv_offset (i_base2k a) <= 2 * i_size a ->
+  run_takes (tree_glwe_tensor_square_apply fam n res a cnv_offset) (0, glwe_tensor_square_apply_tmp_bytes fam n res a) <> None.
+Proof. intros Hf Hp H8. apply suffices_glwe_tensor_square_apply; auto using pow2_nonneg, pow2_ge8. Qed.
+
+Lemma main_gglwe_encrypt_sk (fam n : Z) (res : infos) :
+  is_fam fam -> pow2 n -> 8 <= n -> wf_infos res -> i_n res = n ->
+  run_takes (tree_gglwe_encrypt_sk fam n res) (0, gglwe_encrypt_sk_tmp_bytes fam n res) <> None.
+Proof. intros Hf Hp H8. apply suffices_gglwe_encrypt_sk; auto using pow2_nonneg, pow2_ge8. Qed.
+
+Lemma main_ggsw_encrypt_sk (fam n : Z) (res : infos) :
+  is_fam fam -> pow2 n -> 8 <= n -> wf_infos res -> i_n res = n ->
+  run_takes (tree_ggsw_encrypt_sk fam n res) (0, ggsw_encrypt_sk_tmp_bytes fam n res) <> None.
+Proof. intros Hf Hp H8. apply suffices_ggsw_encrypt_sk; auto using pow2_nonneg, pow2_ge8. Qed.
+
+Lemma main_glwe_switching_key_encrypt_sk (fam n : Z) (res : infos) :
+  is_fam fam -> pow2 n -> 8 <= n -> wf_infos res -> i_n res = n ->
+  run_takes (tree_glwe_switching_key_encrypt_sk fam n res) (0, glwe_switching_key_encrypt_sk_tmp_bytes fam n res) <> None.
+Proof. intros Hf Hp H8. apply suffices_glwe_switching_key_encrypt_sk; auto using pow2_nonneg, pow2_ge8. Qed.
+
+Lemma main_glwe_automorphism_key_encrypt_sk (fam n : Z) (res : infos) :
+  is_fam fam -> pow2 n -> 8 <= n -> wf_infos res -> i_n res = n ->
+  run_takes (tree_glwe_automorphism_key_encrypt_sk fam n res) (0, glwe_automorphism_key_encrypt_sk_tmp_bytes fam n res) <> None.
+Proof. intros Hf Hp H8. apply suffices_glwe_automorphism_key_encrypt_sk; auto using pow2_nonneg, pow2_ge8. Qed.
+
+Lemma main_lwe_switching_key_encrypt_sk (fam n : Z) (res : infos) :
+  is_fam fam -> pow2 n -> 8 <= n -> wf_infos res -> i_n res = n ->
+  run_takes (tree_lwe_switching_key_encrypt_sk fam n res) (0, lwe_switching_key_encrypt_sk_tmp_bytes fam n res) <> None.
+Proof. intros Hf Hp H8. apply suffices_lwe_switching_key_encrypt_sk; auto using pow2_nonneg, pow2_ge8. Qed.
+
+Lemma main_glwe_to_lwe_key_encrypt_sk (fam n : Z) (res : infos) :
+  is_fam fam -> pow2 n -> 8 <= n -> wf_infos res -> i_n res = n -> 1 <= i_rank_in res ->
+  run_takes (tree_glwe_to_lwe_key_encrypt_sk fam n res) (0, glwe_to_lwe_key_encrypt_sk_tmp_bytes fam n res) <> None.
+Proof. intros Hf Hp H8. apply suffices_glwe_to_lwe_key_encrypt_sk; auto using pow2_nonneg, pow2_ge8. Qed.
+
+Lemma main_lwe_to_glwe_key_encrypt_sk (fam n : Z) (res : infos) :
+  is_fam fam -> pow2 n -> 8 <= n -> wf_infos res -> i_n res = n -> 1 <= i_rank_in res ->
+  run_takes (tree_lwe_to_glwe_key_encrypt_sk fam n res) (0, lwe_to_glwe_key_encrypt_sk_tmp_bytes fam n res) <> None.
+Proof. intros Hf Hp H8. apply suffices_lwe_to_glwe_key_encrypt_sk; auto using pow2_nonneg, pow2_ge8. Qed.
+
+Lemma main_glwe_tensor_key_encrypt_sk (fam n : Z) (res : infos) :
+  is_fam fam -> pow2 n -> 8 <= n -> wf_infos res -> i_n res = n ->
+  run_takes (tree_glwe_tensor_key_encrypt_sk fam n res) (0, glwe_tensor_key_encrypt_sk_tmp_bytes fam n res) <> None.
+Proof. intros Hf Hp H8. apply suffices_glwe_tensor_key_encrypt_sk; auto using pow2_nonneg, pow2_ge8. Qed.
+
+Lemma main_gglwe_to_ggsw_key_encrypt_sk (fam n : Z) (res : infos) :
+  is_fam fam -> pow2 n -> 8 <= n -> wf_infos res -> i_n res = n ->
+  run_takes (tree_gglwe_to_ggsw_key_encrypt_sk fam n res) (0, gglwe_to_ggsw_key_encrypt_sk_tmp_bytes fam n res) <> None.
+Proof. intros Hf Hp H8. apply suffices_gglwe_to_ggsw_key_encrypt_sk; auto using pow2_nonneg, pow2_ge8. Qed.
+
+Lemma main_glwe_compressed_encrypt_sk (fam n : Z) (res : infos) :
+  is_fam fam -> pow2 n -> 8 <= n -> 0 <= i_size res ->
+  run_takes (tree_glwe_compressed_encrypt_sk fam n res) (0, glwe_compressed_encrypt_sk_tmp_bytes fam n res) <> None.
+Proof. intros Hf Hp H8. apply suffices_glwe_compressed_encrypt_sk; auto using pow2_nonneg, pow2_ge8. Qed.
+
+Lemma main_gglwe_compressed_encrypt_sk (fam n : Z) (res : infos) :
+  is_fam fam -> pow2 n -> 8 <= n -> wf_infos res -> i_n res = n ->
+  run_takes (tree_gglwe_compressed_encrypt_sk fam n res) (0, gglwe_compressed_encrypt_sk_tmp_bytes fam n res) <> None.
+Proof. intros Hf Hp H8. apply suffices_gglwe_compressed_encrypt_sk; auto using pow2_nonneg, pow2_ge8. Qed.
+
+Lemma main_ggsw_compressed_encrypt_sk (fam n : Z) (res : infos) :
+  is_fam fam -> pow2 n -> 8 <= n -> wf_infos res -> i_n res = n ->
+  run_takes (tree_ggsw_compressed_encrypt_sk fam n res) (0, ggsw_compressed_encrypt_sk_tmp_bytes fam n res) <> None.
+Proof. intros Hf Hp H8. apply suffices_ggsw_compressed_encrypt_sk; auto using pow2_nonneg, pow2_ge8. Qed.
+
+Lemma main_glwe_switching_key_compressed_encrypt_sk (fam n : Z) (res : infos) :
+  is_fam fam -> pow2 n -> 8 <= n -> wf_infos res -> i_n res = n ->
+  run_takes (tree_glwe_switching_key_compressed_encrypt_sk fam n res) (0, glwe_switching_key_compressed_encrypt_sk_tmp_bytes fam n res) <> None.
+Proof. intros Hf Hp H8. apply suffices_glwe_switching_key_compressed_encrypt_sk; auto using pow2_nonneg, pow2_ge8. Qed.
+
+Lemma main_glwe_automorphism_key_compressed_encrypt_sk (fam n : Z) (res : infos) :
+  is_fam fam -> pow2 n -> 8 <= n -> wf_infos res -> i_n res = n ->
+  run_takes (tree_glwe_automorphism_key_compressed_encrypt_sk fam n res) (0, glwe_automorphism_key_compressed_encrypt_sk_tmp_bytes fam n res) <> None.
+Proof. intros Hf Hp H8. apply suffices_glwe_automorphism_key_compressed_encrypt_sk; auto using pow2_nonneg, pow2_ge8. Qed.
+
+Lemma main_glwe_tensor_key_compressed_encrypt_sk (fam n : Z) (res : infos) :
+  is_fam fam -> pow2 n -> 8 <= n -> wf_infos res -> i_n res = n ->
+  run_takes (tree_glwe_tensor_key_compressed_encrypt_sk fam n res) (0, glwe_tensor_key_compressed_encrypt_sk_tmp_bytes fam n res) <> None.
+Proof. intros Hf Hp H8. apply suffices_glwe_tensor_key_compressed_encrypt_sk; auto using pow2_nonneg, pow2_ge8. Qed.
+
+Lemma main_gglwe_to_ggsw_key_compressed_encrypt_sk (fam n : Z) (res : infos) :
+  is_fam fam -> pow2 n -> 8 <= n -> wf_infos res -> i_n res = n ->
+  run_takes (tree_gglwe_to_ggsw_key_compressed_encrypt_sk fam n res) (0, gglwe_to_ggsw_key_compressed_encrypt_sk_tmp_bytes fam n res) <> None.
+Proof. intros Hf Hp H8. apply suffices_gglwe_to_ggsw_key_compressed_encrypt_sk; auto using pow2_nonneg, pow2_ge8. Qed.
+
+Lemma main_cmux (fam n : Z) (res a s : infos) :
+  is_fam fam -> pow2 n -> 8 <= n -> wf_infos res -> wf_infos a -> wf_infos s -> i_n res = n -> i_base2k res = i_base2k s -> i_rank res = i_rank s ->
+  run_takes (tree_cmux fam n res s) (0, cmux_tmp_bytes fam n res a s) <> None.
+Proof. intros Hf Hp H8. apply suffices_cmux; auto using pow2_nonneg, pow2_ge8. Qed.
+
+Lemma main_cmux_assign_neg (fam n : Z) (res a s : infos) :
+  is_fam fam -> pow2 n -> 8 <= n -> wf_infos res -> wf_infos a -> wf_infos s -> i_n res = n -> i_base2k res = i_base2k s -> i_rank res = i_rank s ->
+  run_takes (tree_cmux_assign_neg fam n res a s) (0, cmux_tmp_bytes fam n res a s) <> None.
+Proof. intros Hf Hp H8. apply suffices_cmux_assign_neg; auto using pow2_nonneg, pow2_ge8. Qed.
+
+Lemma main_helper_keyswitch_glwe (fam n : Z) (ksk gin gout : infos) :
+  is_fam fam -> pow2 n -> 8 <= n -> wf_infos ksk -> wf_infos gin -> wf_infos gout -> i_n ksk = n -> i_n gin = n -> i_rank gin = i_rank_in ksk ->
+  let B := Z.lor (Z.lor (glwe_switching_key_encrypt_sk_tmp_bytes fam n ksk) (glwe_encrypt_sk_tmp_bytes fam n gin)) (glwe_keyswitch_tmp_bytes fam n gout gin ksk) in
+  run_takes (tree_glwe_switching_key_encrypt_sk fam n ksk) (0, B) <> None /\
+  run_takes (tree_glwe_encrypt_sk fam n gin) (0, B) <> None /\
+  run_takes (tree_glwe_keyswitch fam n gout gin ksk) (0, B) <> None.
+Proof. intros Hf Hp H8. apply helper_keyswitch_glwe; auto using pow2_nonneg, pow2_ge8. Qed.
+
+Lemma main_helper_external_product_glwe (fam n : Z) (ggsw gin gout : infos) :
+  is_fam fam -> pow2 n -> 8 <= n -> wf_infos ggsw -> wf_infos gin -> wf_infos gout -> i_n ggsw = n -> i_n gin = n ->
+  let B := Z.lor (Z.lor (ggsw_encrypt_sk_tmp_bytes fam n ggsw) (glwe_encrypt_sk_tmp_bytes fam n gin)) (glwe_external_product_tmp_bytes fam n gout gin ggsw) in
+  run_takes (tree_ggsw_encrypt_sk fam n ggsw) (0, B) <> None /\
+  run_takes (tree_glwe_encrypt_sk fam n gin) (0, B) <> None /\
+  run_takes (tree_glwe_external_product fam n gout gin ggsw) (0, B) <> None.
+Proof. intros Hf Hp H8. apply helper_external_product_glwe; auto using pow2_nonneg, pow2_ge8. Qed.
+
+Lemma main_helper_automorphism_ggsw (fam n : Z) (cin cout key tsk : infos) :
+  is_fam fam -> pow2 n -> 8 <= n -> wf_infos cin -> wf_infos cout -> wf_infos key -> wf_infos tsk -> i_n cin = n -> i_n key = n -> i_n tsk = n ->
+  i_rank cin = i_rank_in key -> i_rank cout = i_rank_in tsk ->
+  let B := Z.lor (Z.lor (Z.lor (ggsw_encrypt_sk_tmp_bytes fam n cin) (glwe_automorphism_key_encrypt_sk_tmp_bytes fam n key))
+                        (gglwe_to_ggsw_key_encrypt_sk_tmp_bytes fam n tsk))
+                 (ggsw_automorphism_tmp_bytes fam n cout cin key tsk) in
+  run_takes (tree_ggsw_encrypt_sk fam n cin) (0, B) <> None /\
+  run_takes (tree_glwe_automorphism_key_encrypt_sk fam n key) (0, B) <> None /\
+  run_takes (tree_gglwe_to_ggsw_key_encrypt_sk fam n tsk) (0, B) <> None /\
+  run_takes (tree_ggsw_automorphism fam n cout cin key tsk) (0, B) <> None.
+Proof. intros Hf Hp H8. apply helper_automorphism_ggsw; auto using pow2_nonneg, pow2_ge8. Qed.
+
+Lemma main_helper_trace (fam n : Z) (g key : infos) (steps : Z) :
+  is_fam fam -> pow2 n -> 8 <= n -> wf_infos g -> wf_infos key -> i_n g = n -> i_n key = n -> i_rank g = i_rank_in key ->
+  let B := Z.lor (Z.lor (Z.lor (glwe_encrypt_sk_tmp_bytes fam n g) (glwe_decrypt_tmp_bytes fam n g))
+                        (glwe_automorphism_key_encrypt_sk_tmp_bytes fam n key))
+                 (glwe_trace_tmp_bytes fam n g g key) in
+  run_takes (tree_glwe_encrypt_sk fam n g) (0, B) <> None /\
+  run_takes (tree_glwe_decrypt fam n g) (0, B) <> None /\
+  run_takes (tree_glwe_automorphism_key_encrypt_sk fam n key) (0, B) <> None /\
+  run_takes (tree_glwe_trace fam n g g key steps) (0, B) <> None.
+Proof. intros Hf Hp H8. apply helper_trace; auto using pow2_nonneg, pow2_ge8. Qed.
+
+Lemma main_helper_packing (fam n : Z) (g key : infos) (iters steps : Z) :
+  is_fam fam -> pow2 n -> 8 <= n -> wf_infos g -> wf_infos key -> i_n g = n -> i_n key = n -> i_rank g = i_rank_in key ->
+  let B := Z.max (Z.max (glwe_encrypt_sk_tmp_bytes fam n g) (glwe_automorphism_key_encrypt_sk_tmp_bytes fam n key)) (glwe_pack_tmp_bytes fam n g key) in
+  run_takes (tree_glwe_encrypt_sk fam n g) (0, B) <> None /\
+  run_takes (tree_glwe_automorphism_key_encrypt_sk fam n key) (0, B) <> None /\
+  run_takes (tree_glwe_pack fam n g g key iters steps) (0, B) <> None.
+Proof. intros Hf Hp H8. apply helper_packing; auto using pow2_nonneg, pow2_ge8. Qed.
+
+Lemma main_helper_keyswitch_lwe (fam n : Z) (key lin lout : infos) :
+  is_fam fam -> pow2 n -> 8 <= n -> wf_infos key -> wf_infos lin -> wf_infos lout -> i_n key = n -> i_rank_in key = 1 ->
+  let B := Z.lor (lwe_switching_key_encrypt_sk_tmp_bytes fam n key) (lwe_keyswitch_tmp_bytes fam n lout lin key) in
+  run_takes (tree_lwe_switching_key_encrypt_sk fam n key) (0, B) <> None /\
+  run_takes (tree_lwe_keyswitch fam n lout lin key) (0, B) <> None.
+Proof. intros Hf Hp H8. apply helper_keyswitch_lwe; auto using pow2_nonneg, pow2_ge8. Qed.
 
 Lemma align_matches : gen_DEFAULTALIGN = ALIGN.
 Proof. reflexivity. Qed.
